@@ -4,6 +4,7 @@ import itertools
 
 from core import fseq, fseqs, fbool, fcells, pseq, pseqs, pcells, guarded
 import meshlib as ml
+import used
 
 PROP = "C03"
 RULE = ("exhaustive: every mesh pattern of length <=2 with EVERY subset of its (k+1)^2 cells and every "
@@ -29,6 +30,41 @@ def worker_init():
     Perm, MeshPatt, BivincularPatt, VincularPatt, CovincularPatt = P, M, B, V, C
 
 
+# ----------------------------------------------------------------------------- used objects
+# Every library object of a line is built once (used.obj) and warmed up; on the selected lines (`_heavy`)
+# the whole line is evaluated a second time on the SAME objects and both answers must agree, and every
+# occurrence listing is computed while another listing of the same call is only partially consumed.
+_HEAVY = [False]
+
+
+def _heavy(op, a):
+    """all lines with a mesh pattern of length >= 3 or a target of length >= 7 (the random and length-3
+    streams) and a deterministic twelfth of the short exhaustive lines"""
+    if a and ((a[0].count(",") >= 2 and op[0] == "m") or
+              ("." not in a[-1] and ":" not in a[-1] and a[-1].count(",") >= 6)):
+        return True
+    return used.sel(op, a, 12)
+
+
+def _warm_target(s):
+    if _HEAVY[0]:
+        used.warm_perm(s, 1)
+    else:
+        used.quiet(hash, s)
+
+
+def _warm_mesh(m):
+    if _HEAVY[0]:
+        used.warm_mesh(m, 1)
+    else:
+        used.quiet(hash, m)
+
+
+def _P(seq):
+    seq = tuple(seq)
+    return used.obj(("P", seq), lambda: Perm(seq), _warm_target)
+
+
 def _item(t):
     """build the real object for one item of a mixed argument list"""
     if t == "x":
@@ -36,15 +72,15 @@ def _item(t):
     kind, r = t.split(":")
     parts = r.split("/")
     if kind == "c":
-        return Perm(pseq(parts[0]))
+        return _P(pseq(parts[0]))
     if kind == "m":
-        return MeshPatt(Perm(pseq(parts[0])), pcells(parts[1]))
+        return used.obj(("m", t), lambda: MeshPatt(Perm(pseq(parts[0])), pcells(parts[1])), _warm_mesh)
     if kind == "b":
-        return BivincularPatt(Perm(pseq(parts[0])), pseq(parts[1]), pseq(parts[2]))
+        return used.obj(("b", t), lambda: BivincularPatt(Perm(pseq(parts[0])), pseq(parts[1]), pseq(parts[2])), _warm_mesh)
     if kind == "v":
-        return VincularPatt(Perm(pseq(parts[0])), pseq(parts[1]))
+        return used.obj(("v", t), lambda: VincularPatt(Perm(pseq(parts[0])), pseq(parts[1])), _warm_mesh)
     if kind == "k":
-        return CovincularPatt(Perm(pseq(parts[0])), pseq(parts[1]))
+        return used.obj(("k", t), lambda: CovincularPatt(Perm(pseq(parts[0])), pseq(parts[1])), _warm_mesh)
     raise ValueError(t)
 
 
@@ -53,42 +89,67 @@ def _items(s):
 
 
 def _mesh(a):
-    return MeshPatt(Perm(pseq(a[0])), pcells(a[1]))
+    return used.obj(("M", a[0], a[1]), lambda: MeshPatt(Perm(pseq(a[0])), pcells(a[1])), _warm_mesh)
+
+
+def _biv(kind, *parts):
+    cls = {"B": BivincularPatt, "V": VincularPatt, "C": CovincularPatt}[kind]
+    return used.obj((kind,) + parts, lambda: cls(Perm(pseq(parts[0])), *[pseq(x) for x in parts[1:]]), _warm_mesh)
+
+
+def _occ(make):
+    """the complete listing make() as a string; on heavy lines it is computed while a second listing of the
+    same call on the same objects is partially consumed, and both listings must be equal"""
+    if not _HEAVY[0]:
+        return fseqs(make())
+    full, pieced = used.interleaved(make)
+    return fseqs(full) if full == pieced else used.unstable(fseqs(full), fseqs(pieced))
 
 
 def impl(op, a):
+    used.begin()
+    _HEAVY[0] = _heavy(op, a)
+    r1 = _impl(op, a)
+    if not _HEAVY[0]:
+        return r1
+    used.T.rewind()
+    r2 = _impl(op, a)
+    return r1 if r1 == r2 else used.unstable(r1, r2)
+
+
+def _impl(op, a):
     if op in ("mocc", "moccspec"):
-        return guarded(lambda: fseqs(_mesh(a).occurrences_in(Perm(pseq(a[2])))))
+        return guarded(lambda: (lambda m, s: _occ(lambda: m.occurrences_in(s)))(_mesh(a), _P(pseq(a[2]))))
     if op == "moccof":
-        return guarded(lambda: fseqs(Perm(pseq(a[2])).occurrences_of(_mesh(a))))
+        return guarded(lambda: (lambda m, s: _occ(lambda: s.occurrences_of(m)))(_mesh(a), _P(pseq(a[2]))))
     if op == "bocc":
-        return guarded(lambda: fseqs(BivincularPatt(Perm(pseq(a[0])), pseq(a[1]), pseq(a[2])).occurrences_in(Perm(pseq(a[3])))))
+        return guarded(lambda: (lambda m, s: _occ(lambda: m.occurrences_in(s)))(_biv("B", a[0], a[1], a[2]), _P(pseq(a[3]))))
     if op == "vocc":
-        return guarded(lambda: fseqs(VincularPatt(Perm(pseq(a[0])), pseq(a[1])).occurrences_in(Perm(pseq(a[2])))))
+        return guarded(lambda: (lambda m, s: _occ(lambda: m.occurrences_in(s)))(_biv("V", a[0], a[1]), _P(pseq(a[2]))))
     if op == "cocc":
-        return guarded(lambda: fseqs(CovincularPatt(Perm(pseq(a[0])), pseq(a[1])).occurrences_in(Perm(pseq(a[2])))))
+        return guarded(lambda: (lambda m, s: _occ(lambda: m.occurrences_in(s)))(_biv("C", a[0], a[1]), _P(pseq(a[2]))))
     if op == "bshade":
-        return guarded(lambda: fcells(BivincularPatt(Perm(pseq(a[0])), pseq(a[1]), pseq(a[2])).shading))
+        return guarded(lambda: fcells(_biv("B", a[0], a[1], a[2]).shading))
     if op == "mshade":
         return guarded(lambda: fcells(_mesh(a).shading))
     if op == "mcount":
-        return guarded(lambda: str(_mesh(a).count_occurrences_in(Perm(pseq(a[2])))))
+        return guarded(lambda: str(_mesh(a).count_occurrences_in(_P(pseq(a[2])))))
     if op == "min":
-        return guarded(lambda: fbool(_mesh(a) in Perm(pseq(a[2]))))
+        return guarded(lambda: fbool(_mesh(a) in _P(pseq(a[2]))))
     if op == "mcontainedin":
-        return guarded(lambda: fbool(_mesh(a).contained_in(*[Perm(s) for s in pseqs(a[2])])))
+        return guarded(lambda: fbool(_mesh(a).contained_in(*[_P(s) for s in pseqs(a[2])])))
     if op == "mavoidedby":
-        return guarded(lambda: fbool(_mesh(a).avoided_by(*[Perm(s) for s in pseqs(a[2])])))
+        return guarded(lambda: fbool(_mesh(a).avoided_by(*[_P(s) for s in pseqs(a[2])])))
     if op == "mcontains":
-        return guarded(lambda: fbool(Perm(pseq(a[0])).contains(*_items(a[1]))))
+        return guarded(lambda: fbool(_P(pseq(a[0])).contains(*_items(a[1]))))
     if op == "mavoids":
-        return guarded(lambda: fbool(Perm(pseq(a[0])).avoids(*_items(a[1]))))
+        return guarded(lambda: fbool(_P(pseq(a[0])).avoids(*_items(a[1]))))
     if op == "mavoidsset":
-        return guarded(lambda: fbool(Perm(pseq(a[0])).avoids_set(iter(_items(a[1])))))
+        return guarded(lambda: fbool(_P(pseq(a[0])).avoids_set(iter(_items(a[1])))))
     if op == "mhist":
         def f():
             m = _mesh(a)          # one object: its underlying Perm memoises the search table
-            return "|".join(fseqs(m.occurrences_in(Perm(s))) for s in pseqs(a[2]))
+            return "|".join((lambda t: _occ(lambda: m.occurrences_in(t)))(_P(s)) for s in pseqs(a[2]))
         return guarded(f)
     if op == "mbadtarget":
         return guarded(lambda: fseqs(_mesh(a).occurrences_in((0, 1))))
